@@ -148,6 +148,45 @@ def gen_validation_ahb(rnd, pool, n_roots=(1, 3), depth=2, p_pool=0.3, free_pool
     )
 
 
+def widen(rnd, ahb, pool):
+    """
+    adds a node with more than ten children of one kind (11-25 segments below a group, data elements in a segment,
+    root groups, sub-groups): anything that orders or indexes children by a *label* instead of their position shows
+    up only there. The added nodes carry trivial or pooled expressions.
+    """
+    counter = [0]
+
+    def label(prefix):
+        counter[0] += 1
+        return f"{prefix}w{counter[0]}"
+
+    def expression():
+        return rnd.choice(["X", "Muss", "Kann", "X", rnd.choice(pool)])
+
+    def segment():
+        return {"t": "s", "d": label("S"), "e": expression(), "des": []}
+
+    def element():
+        return {"t": "f", "d": label("F"), "e": expression(), "input": rnd.choice([None, "", "w"])}
+
+    def group():
+        return {"t": "g", "d": label("G"), "e": expression(), "groups": [], "segments": []}
+
+    count = rnd.randint(11, 25)
+    groups = [n for n, _ in walk(ahb) if n["t"] == "g"]
+    segments = [n for n, _ in walk(ahb) if n["t"] == "s"]
+    kind = rnd.choice(["segments", "elements", "roots", "subgroups"])
+    if kind == "segments" and groups:
+        rnd.choice(groups)["segments"].extend(segment() for _ in range(count))
+    elif kind == "elements" and segments:
+        rnd.choice(segments)["des"].extend(element() for _ in range(count))
+    elif kind == "subgroups" and groups:
+        rnd.choice(groups)["groups"].extend(group() for _ in range(count))
+    else:
+        ahb["lines"].extend(group() for _ in range(count))
+    return ahb
+
+
 def summarise_validation(scenario):
     op = scenario["requests"][0]["op"]
     out = {
